@@ -7,16 +7,21 @@ func VerifC04_Shape() {
 	img, sl := vrtSymbolicImage(h, "s")
 	na := len(h.archiveInfoList)
 	// base interval of every archive: 0 or aligned (content otherwise arbitrary)
-	for ai, a := range h.archiveInfoList {
-		vrt.Assume(int64(sl.t[ai][0])%int64(a.secondsPerPoint) == 0)
-		vrt.Assume(sl.t[ai][0] <= 0x7fffffff) // T1: all instants within 2^31 s of each other
-	}
 	w := vrtOpenImage("c04.wsp", img)
-	now := Timestamp(vrt.U32("now"))
+	now := vrtInstant(h, "now")
 	vrtAssumeClock(h, now)
-	from := Timestamp(vrt.U32("from"))
-	until := Timestamp(vrt.U32("until"))
+	for ai := range h.archiveInfoList {
+		vrtAssumeNear(h, now, sl.t[ai][0]) // T1: base interval within 2^31 s of the clock
+	}
+	from := vrtInstant(h, "from")
+	until := vrtInstant(h, "until")
 	id := -2 + vrt.Choose("id", na+3) // -2, -1 (best), 0..A-1, A
+	if id == -1 {
+		// best-archive selection measures now-from as an int32 Duration (T1)
+		if from <= now {
+			vrt.Assume(int64(now)-int64(from) <= 0x7fffffff)
+		}
+	}
 	vrt.Reach("pre")
 
 	ts, err := w.FetchFromArchive(id, from, until, now)
